@@ -21,15 +21,15 @@ def run_request(prelude, c, fuel_n=FUEL_N, fuel_r=FUEL_R, limit=LIMIT):
 
 
 def split_model(ans):
-    """-> (status, asis, fixed, sem); status in ok-N / ok-R / C / UNSUPPORTED / bad"""
+    """-> (status, asis, cartfixed, fixed, sem); status in ok-N / ok-R (+F) / C / UNSUPPORTED / bad"""
     if ans.startswith("ok "):
         parts = ans.split(" | ")
-        if len(parts) == 4:
-            return ("ok-" + parts[0][3:].strip(), parts[1], parts[2], parts[3])
-        return ("bad", ans, ans, ans)
+        if len(parts) == 5:
+            return ("ok-" + parts[0][3:].strip(), parts[1], parts[2], parts[3], parts[4])
+        return ("bad", ans, ans, ans, ans)
     if ans.startswith("C "):
-        return ("C", "C", "C", "C")
-    return (ans.split(" ")[0], ans, ans, ans)
+        return ("C", "C", "C", "C", "C")
+    return (ans.split(" ")[0], ans, ans, ans, ans)
 
 
 def items(s):
@@ -57,7 +57,7 @@ def prefix_compatible(a, b):
     return True
 
 
-def run_real(harness_bin, env, sel, limit=LIMIT, timeout=120):
+def run_real(harness_bin, env, sel, limit=LIMIT, timeout=600):
     """run the real code on the selected cases in one child process; returns {id: outcome} or raises TimeoutExpired"""
     data = "".join("%s\t%s\t%s\t%d\n" % (c["id"], c["code_hex"], c["input"], limit) for c in sel)
     p = subprocess.run([harness_bin, "c01", "run"], input=data, timeout=timeout, env=env,
@@ -70,7 +70,7 @@ def run_real(harness_bin, env, sel, limit=LIMIT, timeout=120):
     return out, p.returncode
 
 
-def run_real_chunked(harness_bin, env, sel, limit=LIMIT, chunk=400, timeout=30, workers=8):
+def run_real_chunked(harness_bin, env, sel, limit=LIMIT, chunk=400, timeout=600, workers=4):
     """real code on all selected cases, in child processes of `chunk` cases (a hang or crash of the real
     code costs one chunk, which is then bisected down to the offending case: outcome `TIMEOUT` / `CRASH`)."""
     from concurrent.futures import ThreadPoolExecutor
@@ -87,7 +87,7 @@ def run_real_chunked(harness_bin, env, sel, limit=LIMIT, chunk=400, timeout=30, 
         if len(cs) == 1:
             return {cs[0]["id"]: bad}
         h = len(cs) // 2
-        t = max(5, timeout // 2)
+        t = max(120, timeout // 2)
         r = {}
         for part in (cs[:h], cs[h:]):
             try:
@@ -101,7 +101,7 @@ def run_real_chunked(harness_bin, env, sel, limit=LIMIT, chunk=400, timeout=30, 
     def work_small(cs, t):
         if len(cs) == 1:
             try:
-                out, rc = run_real(harness_bin, env, cs, limit, 5)
+                out, rc = run_real(harness_bin, env, cs, limit, 60)
                 if rc == 0 and len(out) == 1:
                     return out
                 return {cs[0]["id"]: "CRASH"}
@@ -111,11 +111,11 @@ def run_real_chunked(harness_bin, env, sel, limit=LIMIT, chunk=400, timeout=30, 
         r = {}
         for part in (cs[:h], cs[h:]):
             try:
-                out, rc = run_real(harness_bin, env, part, limit, max(5, t // 2))
+                out, rc = run_real(harness_bin, env, part, limit, max(90, t // 2))
                 ok = rc == 0 and len(out) == len(part)
             except subprocess.TimeoutExpired:
                 ok = False
-            r.update(out if ok else work_small(part, max(5, t // 2)))
+            r.update(out if ok else work_small(part, max(90, t // 2)))
         return r
 
     res = {}
